@@ -36,6 +36,7 @@ def enc(v, depth=0):
 
 
 STEP_LIMIT = 200000
+MEM_LIMIT = 64 * 1024 * 1024     # live bytes: a container doubled in a loop (x.extend(x + x)) passes any step limit
 
 
 class Huge(BaseException):
@@ -56,6 +57,8 @@ def run(src):
             steps[0] += 1
             if steps[0] > STEP_LIMIT:
                 raise Huge()
+            if steps[0] % 64 == 0 and tracemalloc.get_traced_memory()[0] > MEM_LIMIT:
+                raise Huge()
         return tracer
 
     tracemalloc.start()
@@ -68,8 +71,10 @@ def run(src):
             sys.settrace(None)
         peak = tracemalloc.get_traced_memory()[1]
         tracemalloc.stop()
+        if peak > MEM_LIMIT:
+            return {"tr": [], "out": {"huge": True}, "huge": True, "steps": steps[0], "peak": peak}
         return {"tr": tr, "out": {"ok": True}, "steps": steps[0], "peak": peak}
-    except Huge:
+    except (Huge, MemoryError):
         tracemalloc.stop()
         return {"tr": [], "out": {"huge": True}, "huge": True, "steps": steps[0], "peak": 10 ** 12}
     except RecursionError:
@@ -78,6 +83,8 @@ def run(src):
     except Exception as e:  # noqa: BLE001
         peak = tracemalloc.get_traced_memory()[1]
         tracemalloc.stop()
+        if peak > MEM_LIMIT:
+            return {"tr": [], "out": {"huge": True}, "huge": True, "steps": steps[0], "peak": peak}
         line = 0
         for fs in traceback.extract_tb(e.__traceback__):
             if fs.filename == "<prog>":
@@ -88,6 +95,11 @@ def run(src):
 
 
 def main():
+    try:
+        import resource
+        resource.setrlimit(resource.RLIMIT_AS, (4 << 30, 4 << 30))   # a single huge allocation raises MemoryError instead of swapping
+    except Exception:  # noqa: BLE001
+        pass
     with open(sys.argv[1]) as f, open(sys.argv[2], "w") as out:
         for l in f:
             if l.strip():
